@@ -1,8 +1,9 @@
 /-
   C01 — Expressions evaluate per the DSL's arithmetic, comparison and logic semantics.
 
-  Layers: (a) the primitives of the code (`goArith`, `goCmp`: models of internal/core/math.go and
-  of the comparison block of Expression.Evaluate, tied by the correspondence runs) equal the
+  Layers: (a) the primitives of the code (`goArith`: the interpreter of internal/core/math.go's
+  decision table, regenerated from the source on every run; `goCmp`: hand-written model of the
+  comparison block of Expression.Evaluate; both tied by the correspondence runs) equal the
   reference primitives for all operand values of all kinds; (b) the interpreter run on the AST
   shape the listener builds (`lowerX`) computes the reference meaning `denote` of the tree — for
   every tree, every environment, and arbitrary primitives.  Text -> tree (precedence,
@@ -13,6 +14,7 @@
 import GV.Eval.ValThm
 import GV.Eval.LowerThm
 import GV.Eval.FactsParams
+import GV.Generated.Math
 namespace GV.Props.C01
 open GV.Eval
 
@@ -20,6 +22,17 @@ open GV.Eval
     an error by the enclosing recover) compute the reference semantics. -/
 theorem C01_arith (op : AOp) (a b : Val) (ha : a.WK = true) (hb : b.WK = true) :
     (goArith op a b).recovered = refArith op a b := arith_correct op a b ha hb
+
+/-- internal/core/math.go, translated to a table on every run, is the table `goArith` interprets
+    (string concatenation case, zero-divisor guards, the nine kind-prefix rows of each of Add, Sub,
+    Mul, Div with their operand conversions) -/
+theorem C01_math_go_regenerated : GV.Generated.Math.tables = MathIR.expected := by decide
+
+/-- … so the arithmetic theorem is about the code as it is now -/
+theorem C01_arith_regenerated (op : AOp) (a b : Val) (ha : a.WK = true) (hb : b.WK = true) :
+    (MathIR.tblArith GV.Generated.Math.tables op a b).recovered = refArith op a b := by
+  rw [C01_math_go_regenerated]
+  exact arith_correct op a b ha hb
 
 /-- Comparison: the comparison block computes the reference semantics (`none`: error). -/
 theorem C01_cmp (op : COp) (a b : Val) (ha : a.WK = true) (hb : b.WK = true) :
